@@ -78,13 +78,29 @@ def check_call(case):
     common.expect_raises(lambda: d(*bad), (TypeError,),
                          "C19:wrong-input-length-accepted",
                          "{} called on {} values".format(d, len(bad)))
-    # boxes and diagrams that live for one call only: made, called and
-    # dropped in a loop (each computes its own function, whatever was
-    # evaluated before and wherever the interpreter puts it)
+    arities = [b["n"] for b, _ in spec["layers"]]
+    return dict(nt=len(arities) >= 3 and any(0 in a for a in arities)
+                and any(max(a) >= 2 for a in arities),
+                labels=["boxes%d" % min(len(arities), 6)],
+                show="{} on {} = {}".format(common.show(d, 150), inputs,
+                                            got)[:400])
+
+
+def enum_short_lived(tier):
+    for shift in range(4 if tier == "quick" else 12):
+        yield {"shift": shift, "n": 60 if tier == "quick" else 150}
+
+
+def check_short_lived(case):
+    """ Boxes and diagrams that live for one call only: made, called and
+    dropped in a loop. Each computes its own function, whatever was evaluated
+    before and wherever the interpreter puts it (the whole loop is one case,
+    so that a failure is a function of the case alone). """
     import gc
     from discopy import cartesian
-    for k in range(6):
-        n_in, n_out = (k + n) % 3, (k + len(ref)) % 3
+    shift = case["shift"]
+    for k in range(case["n"]):
+        n_in, n_out = (k + shift) % 3, ((k + shift) // 3) % 3
         fn = xspec.term_function("t%d" % k, n_out)
         args = tuple("v%d" % i for i in range(n_in))
         expected = fn(*args)
@@ -93,18 +109,14 @@ def check_call(case):
         require(out == expected, "C19:short-lived-box",
                 lambda: "box {} of a loop, {} -> {}: returned {!r} expected "
                 "{!r}".format(k, n_in, n_out, out, expected))
-        out = (fresh >> cartesian.Id(n_out))(*args)
-        require(out == expected, "C19:short-lived-diagram",
-                lambda: "diagram {} of a loop: returned {!r} expected {!r}"
-                .format(k, out, expected))
+        if k % 2:
+            out = (fresh >> cartesian.Id(n_out))(*args)
+            require(out == expected, "C19:short-lived-diagram",
+                    lambda: "diagram {} of a loop: returned {!r} expected "
+                    "{!r}".format(k, out, expected))
         del fresh
         gc.collect()
-    arities = [b["n"] for b, _ in spec["layers"]]
-    return dict(nt=len(arities) >= 3 and any(0 in a for a in arities)
-                and any(max(a) >= 2 for a in arities),
-                labels=["boxes%d" % min(len(arities), 6)],
-                show="{} on {} = {}".format(common.show(d, 150), inputs,
-                                            got)[:400])
+    return dict(nt=True, labels=["loop"], show="{} boxes".format(case["n"]))
 
 
 def enum_structural(tier):
@@ -201,6 +213,9 @@ def selftest():
 
 
 core.register("C19", [
+    Facet("short_lived", None, check_short_lived, enum=enum_short_lived,
+          shards_quick=4, rule="loops of 60 boxes (and every other time a "
+          "composite) made, called once and dropped, all arities 0-2"),
     Facet("call", call_cases, check_call, n_quick=1500, shards_quick=4,
           rule=RULE),
     Facet("structural", None, check_structural, enum=enum_structural,
